@@ -99,6 +99,17 @@ def judge_spelling(canon, entry, spelling, counters):
                             {'spelling': spelling, 'canon': canon,
                              'helper': 'guess_line_endings', 'kind': kind}))
 
+    # (a') the object model's statistics split the diff on the codec's
+    # newline, not on anything else that may look like a line break
+    for kind in ('unix', 'dos'):
+        counters['stats-probes'] += 1
+        res = judge_stats(entry, spelling, kind)
+
+        if res is not None:
+            out.append((res[0], res[1],
+                        {'spelling': spelling, 'canon': canon,
+                         'stats_probe': kind}))
+
     # (b), (c) writer and reader
     for le in (None, 'unix', 'dos'):
         for indent in (0, 3):
@@ -112,6 +123,55 @@ def judge_spelling(canon, entry, spelling, counters):
                     out.append((res[0], res[1], case))
 
     return out
+
+
+def judge_stats(entry, spelling, kind):
+    ns = sut.load()
+    canon = entry['canon']
+    nl = '\n' if kind == 'unix' else '\r\n'
+    specials = [c for c in ('\x0c', '\x0b', '\x1c', '\x85', '\u2028')
+                if c in entry['alphabet'] or c in '\x0c\x0b\x1c']
+    enc_ok = []
+
+    for c in specials:
+        try:
+            if c.encode(canon).decode(canon) == c:
+                b = codecs.getincrementalencoder(canon)()
+                b.encode('x')
+                e = b.encode(c)
+
+                if len(entry['lf']) == 1 or (b'\n' not in e and
+                                             b'\r' not in e):
+                    enc_ok.append(c)
+        except UnicodeError:
+            pass
+
+    s1 = enc_ok[0] if enc_ok else ''
+    s2 = enc_ok[-1] if enc_ok else ''
+    text = nl.join(['--- a', '+++ b', '@@ -1,2 +1,2 @@',
+                    ' ctx' + s1 + 'tail', '-old' + s2 + 'x', '+new']) + nl
+    diffx = ns.DiffX()
+    f = diffx.add_change().add_file(meta={'path': 'p'})
+    f.diff = text.encode(canon)
+    f.diff_encoding = spelling
+
+    if kind == 'dos':
+        f.diff_line_endings = 'dos'
+
+    try:
+        diffx.generate_stats()
+    except Exception as e:
+        return 'generate_stats-raised:%s' % type(e).__name__, repr(e)
+
+    got = f.meta.get('stats')
+    want = {'insertions': 1, 'deletions': 1, 'lines changed': 2}
+
+    if got != want:
+        return ('stats-depend-on-codec-or-spelling',
+                'diff_encoding=%r (%s, %s): stats %r, expected %r'
+                % (spelling, canon, kind, got, want))
+
+    return None
 
 
 def program_for(case, name):
@@ -247,6 +307,14 @@ def run_chunk(canon, st):
 def run_case(case, st):
     entry = dict(spec.catalogue()[case['canon']], canon=case['canon'])
     st.case(case, nontrivial=case['spelling'] != case['canon'])
+
+    if 'stats_probe' in case:
+        res = judge_stats(entry, case['spelling'], case['stats_probe'])
+
+        if res is not None:
+            st.violation(res[0], res[1], case)
+
+        return
 
     if 'helper' in case:
         import collections
